@@ -500,6 +500,9 @@ FEATURES = [
     ("deep-lyddane-node-through-0", lambda p, rng, side: p.update(inc=round(rng.uniform(0.5, 11.0), 4), raan=[0.0, round(rng.uniform(0.0, 3.0), 4)][side]) or True, ["deep"]),
     ("e=max-for-perigee-220(kepler-loop)", lambda p, rng, side: p.update(n8=int(rng.uniform(6.5, 7.5) * 1e8), ma=[2.0, 358.0][side],
                                                                            e7=int((1 - (RE_KM + 225.0) / _a_km(7.5)) * 1e7)) or True, ["near-full"]),
+    # far outside the domain on purpose: the drag polynomial leaves its range of validity, the native model computes NaN and its Kepler loop
+    # runs out of passes (the only way the generators found to leave that loop without `break`)
+    ("decayed(kepler-loop-exhausted)", _set(n8=1640000000, e7=50000, bm=99999, be=-2), ["near-low"]),
     ("norad=00001,elnb=0,revs=0", _set(norad=1, elnb=0, revs=0), None), ("norad=99999,elnb=9999,revs=99999", _set(norad=99999, elnb=9999, revs=99999), None),
 ]
 DEFAULT_REGIMES = ["near-drag", "near-full", "near-low", "deep"]
@@ -527,10 +530,12 @@ def gen_directed(rng, k):
     return l1, l2, info
 
 
-def gen_directed_offsets(rng):
+def gen_directed_offsets(rng, info=None):
     """dates for a directed TLE: one well before and one well after epoch (drag and secular terms have grown), sometimes a boundary of the +-30 d window"""
     day = 86_400_000_000
     a = -rng.randint(1 * day, 30 * day) if rng.random() < 0.85 else rng.choice([-30 * day, -1, 0])
+    if info is not None and info.get("feature", "").startswith("decayed"):
+        a = -rng.randint(12 * day, 30 * day)
     b = rng.randint(1 * day, 30 * day) if rng.random() < 0.85 else rng.choice([30 * day, 1, 0])
     return [a, b]
 
@@ -920,7 +925,7 @@ def oracle(ctx, widened):
             if rng.random() < 0.15:
                 info["name"] = rng.choice(["ISS (ZARYA)", "0 VANGUARD 1", "X"])
             offsets = []
-            for off in gen_directed_offsets(rng):
+            for off in gen_directed_offsets(rng, info):
                 label = rng.choice(LABELS)
                 offsets.append((off, label, rng.choice([x for x in LABELS if x != label])))
             check_tle(out, rng, l1, l2, info, offsets)
@@ -1147,8 +1152,8 @@ def native_cases(ctx, out):
             low = (init[2] * (1 - elems[2]) - 1) * RE_KM
             out.count(key=(l1, l2, "init"), kind="native-init", perigee="<98" if low < 98 else "<156" if low < 156 else ">=156", ecc="e<=1e-4" if elems[2] <= 1e-4 else "e>1e-4",
                       retro=info["inc"] > 90)
-            for _j in range(2):
-                off = gen_offset_us(rng)
+            offs = gen_directed_offsets(rng, info) if info.get("feature") and (rng.random() < 0.7 or info["feature"].startswith("decayed")) else [gen_offset_us(rng), gen_offset_us(rng)]
+            for off in offs:
                 label = rng.choice(LABELS)
                 use_td = rng.random() < 0.2
                 if use_td:
@@ -1260,7 +1265,7 @@ def refspec_cases(ctx, out):
                   xlcof_guard=abs(math.cos(sat.inclo) + 1.0) > 1.5e-12)
         if not full:
             continue
-        for off in (gen_directed_offsets(rng) if k < n_dir else [gen_offset_us(rng), gen_offset_us(rng)]):
+        for off in (gen_directed_offsets(rng, info) if k < n_dir else [gen_offset_us(rng), gen_offset_us(rng)]):
             t = off / 60e6
             r, v = core_sgp4(sat, t)
             if r is False or sat.error != 0:
